@@ -268,8 +268,11 @@ class ResourceCitation(CitationBase):
     def __hash__(self) -> int:
         """ResourceCitation objects are hashed in the same way as their
         parent class (CitationBase) objects, except that we also take into
-        consideration the all_editions field.
+        consideration the all_editions field. As with CaseCitation objects,
+        a citation with a known missing page is unique for safety.
         """
+        if "page" in self.groups and self.groups["page"] is None:
+            return id(self)
         return hash(
             hash_sha256(
                 {
